@@ -306,7 +306,7 @@ def run_and_judge(pid, V, bins, scenarios, tables_of, flags, invs, work, array_d
     applies the end-state oracle.  tables_of(scn) -> list of Table.
     Returns statistics."""
     t_run = time.time()
-    traces = common.run_shards(bins["zvstore"], [{k: v for k, v in s.items() if k != "menu"} for s in scenarios],
+    traces = common.run_shards(bins["zvstore"], [{k: v for k, v in s.items() if k not in ("menu", "sets")} for s in scenarios],
                                os.path.join(work, label))
     by_id = {s["scn"]: s for s in scenarios}
     print("[%s] ran %d scenarios in %.1fs" % (pid, len(scenarios), time.time() - t_run), flush=True)
@@ -400,7 +400,7 @@ def sample_of(sc, n=14):
 
 def store_check(args, pid, mc_jobs, gen, invs, array_dup_oracle, assumptions, classify=None,
                 mc_props=("FlushInvisible", "DiskEqualsViewAfterSwap"), nontrivial_rule=None, value_oracle=None,
-                extra_cov=None, end_oracle=True, decision_lines=False):
+                extra_cov=None, end_oracle=True, decision_lines=False, post_judge=None):
     """Common driver: (M) exhaustive TLC jobs, counterexamples replayed as
     hypotheses; (R) simulated behaviours replayed on the real code, traces
     validated by TLC, end-state oracle."""
@@ -464,6 +464,8 @@ def store_check(args, pid, mc_jobs, gen, invs, array_dup_oracle, assumptions, cl
         stats, traces, fails, viols = run_and_judge(pid, V, bins, scenarios, lambda s: tabs_of[s["scn"]], flags, invs,
                                                    work, array_dup_oracle, classify, value_oracle=value_oracle,
                                                    end_oracle=end_oracle, decision_lines=decision_lines)
+        if post_judge:
+            post_judge(V, scenarios, traces)
         if extra_cov:
             cov.update(extra_cov(scenarios, traces))
         cov.update({"traces_validated_against_impl": stats["accepted"],
@@ -918,6 +920,158 @@ def check_C04(args):
                        extra_cov=extra_cov)
 
 
+class Directed:
+    """Builds an action list (like a TLC behaviour) for a chosen schedule while
+    tracking what the model would enable: a flush of a table whose memstore is
+    empty is an OffWrite (if its offset moved) or nothing."""
+
+    def __init__(self, tables, menu):
+        self.tables, self.menu = tables, menu
+        self.h = [{"a": "Start"}]
+        self.dirty = {t.name: False for t in tables}     # memstore has cells
+        self.moved = {t.name: False for t in tables}     # offset changed since last write
+        self.n = 0
+
+    def insert_and_process(self):
+        self.n += 1
+        p = self.menu[self.n - 1]
+        self.h.append({"a": "Insert", "i": self.n})
+        for t in self.tables:
+            self.h.append({"a": "Decide", "t": t.name})
+            passes = WHERES[t.where][1](plain_dims(KEYS[p["k"]]))
+            if passes and not p["vs"]:
+                continue                       # accepted, but nothing to apply
+            self.h.append({"a": "Apply", "t": t.name})
+            self.moved[t.name] = True
+            if passes:
+                self.dirty[t.name] = True
+
+    def flush(self, tn):
+        if self.dirty[tn]:
+            self.h += [{"a": "FlushBegin", "t": tn}, {"a": "FlushTemp", "t": tn}, {"a": "FlushRename", "t": tn},
+                       {"a": "FlushSwap", "t": tn}]
+            self.dirty[tn] = self.moved[tn] = False
+        elif self.moved[tn]:
+            self.h.append({"a": "OffWrite", "t": tn})
+            self.moved[tn] = False
+
+
+# ---------------------------------------------------------------- C17
+
+def c17_set(rng, t, now):
+    """2-8 queries against table t: different field subsets, limits, time
+    ranges, memstore options, one of them possibly with an expired deadline."""
+    dec = [f for f in t.fields if f in FIELDS]
+    cands = [
+        dict(sql="SELECT * FROM %s" % t.name, mem=True, probe=t.name),
+        dict(sql="SELECT * FROM %s" % t.name, mem=False, probe=t.name),
+        dict(sql="SELECT %s FROM %s" % (dec[0], t.name), mem=rng.random() < 0.5),
+        dict(sql="SELECT %s FROM %s" % (", ".join(reversed(dec)), t.name), mem=True),
+        dict(sql="SELECT _points FROM %s" % t.name, mem=rng.random() < 0.5),
+        dict(sql="SELECT * FROM %s ASOF '-%ds' UNTIL '-%ds'" % (t.name, rng.randint(5, 9), rng.randint(1, 4)), mem=True),
+        dict(sql="SELECT %s FROM %s ASOF '-%ds' UNTIL '-%ds' GROUP BY period(%ds)" % (dec[0], t.name, rng.randint(6, 9), rng.randint(2, 4), 2 * t.res), mem=True),
+        dict(sql="SELECT %s FROM %s GROUP BY %s, period(%ds)" % (dec[-1], t.name, t.group[0], 2 * t.res), mem=rng.random() < 0.5),
+        dict(sql="SELECT * FROM %s LIMIT 1" % t.name, mem=True, limit=1, of="SELECT * FROM %s" % t.name),
+        dict(sql="SELECT %s FROM %s ORDER BY _time DESC LIMIT 2" % (dec[0], t.name), mem=True),
+        dict(sql="SELECT * FROM %s" % t.name, mem=True, timeoutUs=1, expired=True),
+    ]
+    k = rng.randint(2, 8)
+    chosen = rng.sample(cands, k)
+    if not any(c.get("probe") for c in chosen):
+        chosen[0] = cands[rng.randint(0, 1)]
+    for i, c in enumerate(chosen):
+        c["id"] = "q%d" % i
+    return chosen
+
+
+def check_C17(args):
+    def mc_jobs(quick):
+        return [dict(tables=MC_TABLES, menu=MC_MENU, max_flushes=2, max_crashes=0)]
+
+    def gen(rng, quick, work, flags):
+        for di in range(48 if quick else 800):
+            tabs = C03_TABLES
+            n = rng.randint(5, 10)
+            menu = random_menu(rng, n, ticks=(1, 9), keys=rng.choice([[1, 3], [3, 4], [1, 2, 3, 4]]), nonnumeric=False)
+            d = Directed(tabs, menu)
+            for i in range(1, n + 1):
+                d.insert_and_process()
+                if rng.random() < 0.25:
+                    d.flush(rng.choice(tabs).name)
+            h = d.h
+            sc = scenario_from_hist("C17-%d" % di, tabs, menu, h, probe_every=False,
+                                    opts={"coalesceMs": 60})
+            tail = []
+            for si in range(2):
+                t = rng.choice(tabs)
+                st = c17_set(rng, t, 9)
+                members = [{k: v for k, v in q.items() if k in ("id", "sql", "mem", "timeoutUs", "probe")} for q in st]
+                tail.append({"a": "RunSet", "set": members, "concurrent": False, "setId": "s%d-solo" % si})
+                tail.append({"a": "RunSet", "set": members, "concurrent": True, "setId": "s%d-conc" % si})
+            # the sets go after the final Settle, before the final probes
+            idx = max(i for i, c in enumerate(sc["cmds"]) if c["a"] == "Settle") + 1
+            sc["cmds"][idx:idx] = tail
+            sc["sets"] = True
+            yield sc, tabs
+
+    stats = {"sets": 0, "members": 0, "coalesced_sets": 0, "max_group": 0, "mismatch": 0}
+
+    def value_oracle(sc, t, result, n_entries):
+        return []
+
+    def extra_cov(scenarios, traces):
+        return dict(stats)
+
+    # the judgement of the sets happens on the traces: wrap run_and_judge through a classify hook
+    def judge_sets(V, scenarios, traces):
+        by_id = {s["scn"]: s for s in scenarios}
+        for scn, lines in traces.items():
+            sets = {}
+            for l in lines:
+                if l.get("a") == "Other" and "set" in l:
+                    base, kind = l["set"].rsplit("-", 1)
+                    sets.setdefault(base, {}).setdefault(kind, {})[l["id"]] = l
+            for base, kinds in sets.items():
+                if "solo" not in kinds or "conc" not in kinds:
+                    continue
+                stats["sets"] += 1
+                grp = max(1, len(kinds["conc"]) - (next(iter(kinds["conc"].values())).get("scans", 1) - 1))
+                if next(iter(kinds["conc"].values())).get("scans", 0) < len(kinds["conc"]):
+                    stats["coalesced_sets"] += 1
+                stats["max_group"] = max(stats["max_group"], grp)
+                for qid, solo in kinds["solo"].items():
+                    conc = kinds["conc"].get(qid)
+                    stats["members"] += 1
+                    if conc is None:
+                        continue
+                    if solo["sql"].endswith("LIMIT 1"):
+                        same = (len(conc["raw"]) == len(solo["raw"])) and ("err" in conc) == ("err" in solo)
+                    elif "err" in solo:
+                        # a query that fails alone (expired deadline) may fail in company
+                        same = "err" in conc
+                    else:
+                        key = lambda r: json.dumps(r, sort_keys=True)
+                        same = sorted(map(key, conc["raw"])) == sorted(map(key, solo["raw"])) and "err" not in conc
+                    if not same:
+                        stats["mismatch"] += 1
+                        rp = common.save_replay("C17", "%s-%s-%s" % (scn, base, qid),
+                                                {"scenario": by_id[scn], "kind": "coalesced-vs-solo", "query": solo["sql"],
+                                                 "mem": solo["mem"], "solo": {k: solo.get(k) for k in ("raw", "err")},
+                                                 "concurrent": {k: conc.get(k) for k in ("raw", "err", "scans")},
+                                                 "companions": [x["sql"] + (" [mem]" if x["mem"] else "") for x in kinds["conc"].values()]})
+                        V.violation(rp, "%s %s: `%s` (mem=%s) returned %d rows%s when run together with %d other queries, %d rows%s alone"
+                                    % (scn, base, solo["sql"], solo["mem"], len(conc["raw"]), " and an error" if "err" in conc else "",
+                                       len(kinds["conc"]) - 1, len(solo["raw"]), " and an error" if "err" in solo else ""))
+
+    return store_check(args, "C17", mc_jobs, gen, ["MemLockStep"], True,
+                       ["queries of a set are started together from goroutines released by one barrier with a coalesce "
+                        "interval of 60 ms; the number of scans observed (iter.start hook) says how many were coalesced",
+                        "reference = the same queries run one after the other on the same quiescent data; plain probes are "
+                        "additionally bound to the specification's view (a disk-only probe must not return memstore data)",
+                        "unordered LIMIT: only the number of rows is compared"] + BASE_ASSUMPTIONS[:1],
+                       end_oracle=False, extra_cov=extra_cov, post_judge=judge_sets)
+
+
 def tables_from_defs(sc):
     """Rebuild Table objects of a stored scenario (replay)."""
     out = []
@@ -930,4 +1084,4 @@ def tables_from_defs(sc):
     return out
 
 
-CHECKS = {"C04": check_C04, "C18": check_C18, "C15": check_C15, "C14": check_C14, "C01": check_C01, "C02": check_C02, "C03": check_C03}
+CHECKS = {"C17": check_C17, "C04": check_C04, "C18": check_C18, "C15": check_C15, "C14": check_C14, "C01": check_C01, "C02": check_C02, "C03": check_C03}
